@@ -47,8 +47,14 @@ theorem walk_of_relWalk (s s' b : List Seg) (r : List Seg) (h : relWalk s r = so
 
 theorem tailSegs_normal (clean : Bool) : normalPath (tailSegs clean) := by
   intro s hs
-  cases clean <;> simp [tailSegs] at hs <;> (try rcases hs with rfl | rfl) <;> (try subst hs) <;>
+  cases clean <;> simp [tailSegs, Gen.filerTail, Gen.filerCleanTail] at hs <;> (try rcases hs with rfl | rfl) <;> (try subst hs) <;>
     simp [normalSeg, isSkip, isUp]
+
+theorem tailSegs_ne_nil (clean : Bool) : tailSegs clean ≠ [] := by
+  cases clean <;> simp [tailSegs, Gen.filerTail, Gen.filerCleanTail]
+
+theorem tail_append_ne_nil (clean : Bool) (t : List Seg) : tailSegs clean ++ t ≠ [] := by
+  simp [tailSegs_ne_nil]
 
 theorem tmpSeg_normal (n : Nat) : normalSeg (tmpSeg n) := by
   simp [normalSeg, isSkip, isUp, tmpSeg]
